@@ -302,12 +302,16 @@ fn follow_up(h: &mut Harness) -> Result<Option<String>, String> {
         }
         let srv = h.srv.as_ref().unwrap();
         let aux = h.aux.as_mut().unwrap();
-        match srv.call(aux, &cmd) {
+        // the reply may be as large as what the case stored (16 MiB words in the thorough tier): a generous budget of
+        // loop iterations, and a control connection that lost step with its replies is dropped, not reused
+        let r = srv.send_all(aux, &resp::cmd(&cmd)).and_then(|_| srv.await_reply(aux, 6000));
+        match r {
             Ok(_) => {}
             Err(e) => {
                 if srv.is_dead() {
                     return Ok(Some(cmd.join(" ")));
                 }
+                h.aux = None;
                 return Err(format!("follow-up {}: {:?}", cmd.join(" "), e));
             }
         }
